@@ -192,6 +192,19 @@ CHECKS = {
         design_ref='DESIGN.md section 3 (C14)',
         note='Trusts: TLC; one action per message the bus reads (its read order is the delivery interleaving); broadcasts are '
              'compared copy for copy (one per matching rule), stronger than the set of connections the property names.'),
+    'C09': dict(
+        technique='TLA+ spec ConnLife.tla (endpoint walk, handshake / Hello outcome, calls, callbacks, proxies, crash points) '
+                  'model-checked by TLC; graphs replayed on the real connect() path over MemoryReactorClock; fault sequences '
+                  'validated by TLC',
+        text='For every reachability pattern of address lists with up to 3 endpoints (unix path / abstract, tcp, nonce-tcp, an '
+             'ignored launchd entry; refused / DNS / timeout failures) TLC explores all orders of endpoint results, handshake '
+             'and Hello outcomes, calls with and without deadline, callback registration on the connection and on explicit / '
+             'introspected proxies of the same object, proxy release, and the transport closing at every point (Deferred fires '
+             'exactly once, first reachable address, loss fails all pending work, callbacks once, silence afterwards). Every edge '
+             'and random walks are replayed on the real txdbus.client.connect; random fault sequences on longer lists are '
+             'validated by TLC.',
+        design_ref='DESIGN.md section 3 (C09)',
+        note='Trusts: TLC, twisted MemoryReactorClock; nonce-tcp is connected like tcp; handshake lines are scripted (C07).'),
 }
 
 NOT_YET = 'check not built yet (build in progress; see DESIGN.md section 6)'
